@@ -73,7 +73,7 @@ func MatchExchangeRate(rates []*ExchangeRate, from, to Code) *ExchangeRate {
 		return nil
 	}
 	for _, rate := range rates {
-		if rate.From == from && rate.To == to {
+		if rate != nil && rate.From == from && rate.To == to {
 			return rate
 		}
 	}
@@ -110,7 +110,7 @@ func (erv *exchangeRateValidation) Validate(val any) error {
 		return nil
 	}
 	for _, r := range erv.rates {
-		if r.From == cur && r.To == erv.to {
+		if r != nil && r.From == cur && r.To == erv.to {
 			return nil
 		}
 	}
